@@ -79,7 +79,9 @@ def atoms(conds):
     out = []
     for c in conds:
         if c[0][0] == "discr":
-            out.append(("raw",) + tuple(c[:3]))
+            # (tests on the payload of `checked_sub` and on an `Ordering` are comparisons: bool_atom knows them)
+            a = bool_atom(c)
+            out.append(a if a is not None and a[0] != "truth" else ("raw",) + tuple(c[:3]))
         else:
             out.append(bool_atom(c) or ("raw",) + tuple(c[:3]))
     return out
